@@ -1,21 +1,18 @@
 SPECIFICATION Spec
 CONSTANTS
-  Kinds = {"radio"}
+  Kinds = {"usb", "tcp", "udp", "radio"}
   CbModes = {TRUE, FALSE}
   SlModes = {TRUE, FALSE}
   Bug = "none"
   Faults = {"none", "f1", "f2"}
-  MaxOps = 6
-  MaxSess = 3
-  MaxReq = 3
-  MaxIdle = 3
-  MaxErr = 2
-  HsMax = 2
-  Retries = 2
-  JamLen = 3
+  MaxOps = 12
+  MaxSess = 4
+  MaxReq = 6
+  MaxIdle = 6
+  MaxErr = 3
+  HsMax = 10
+  Retries = 3
+  JamLen = 4
   KeepHistory = TRUE
 INVARIANT HistoryOK
-INVARIANT Quiet
-INVARIANT TypeOK
-VIEW NoHistory
 CHECK_DEADLOCK FALSE
